@@ -8,7 +8,7 @@ namespace Ndn.C03
 
 /-! ### small arithmetic / list facts -/
 
-theorem natLen_le (x : Nat) : natLen x ≤ 8 ∧ 0 < natLen x := by
+theorem natLen_le_dt (x : Nat) : natLen x ≤ 8 ∧ 0 < natLen x := by
   unfold natLen; repeat' split
   all_goals omega
 
@@ -16,29 +16,29 @@ theorem natLen_bound (x : Nat) (hx : x < 2 ^ 64) : x < 256 ^ natLen x ∧ 256 ^ 
   unfold natLen u64; repeat' split
   all_goals omega
 
-theorem encTL_small (x : Nat) (h : x ≤ 0xfc) : encTL x = [x] := by simp [encTL, h]
+theorem encTL_small_dt (x : Nat) (h : x ≤ 0xfc) : encTL x = [x] := by simp [encTL, h]
 
-theorem tlLen_mono {a b : Nat} (h : a ≤ b) : tlLen a ≤ tlLen b := by
+theorem tlLen_mono_dt {a b : Nat} (h : a ≤ b) : tlLen a ≤ tlLen b := by
   unfold tlLen; repeat' split
   all_goals omega
 
-theorem tlLen_le (x : Nat) : tlLen x ≤ 9 := by
+theorem tlLen_le_dt (x : Nat) : tlLen x ≤ 9 := by
   unfold tlLen; repeat' split
   all_goals omega
 
 @[simp] theorem optB_none {α : Type} (f : α → Bytes) : optB none f = [] := rfl
 @[simp] theorem optB_some {α : Type} (a : α) (f : α → Bytes) : optB (some a) f = f a := rfl
 
-theorem contentLen_eq (c : List Bytes) : contentLen c = c.flatten.length := by
+theorem contentLen_eq_dt (c : List Bytes) : contentLen c = c.flatten.length := by
   simp [contentLen, List.length_flatten]
 
 /-- a generated natural field as a plain TLV -/
-theorem encNatField_eq (t x : Nat) :
+theorem encNatField_eq_dt (t x : Nat) :
     encNatField t x = encTL t ++ (encTL (be (natLen x) x).length ++ (be (natLen x) x ++ [])) := by
-  have := natLen_le x
-  simp [encNatField, encTL_small (natLen x) (by omega)]
+  have := natLen_le_dt x
+  simp [encNatField, encTL_small_dt (natLen x) (by omega)]
 
-theorem encBinField_eq (t : Nat) (v : Bytes) :
+theorem encBinField_eq_dt (t : Nat) (v : Bytes) :
     encBinField t v = encTL t ++ (encTL v.length ++ (v ++ [])) := by
   simp [encBinField]
 
@@ -128,7 +128,7 @@ theorem meta_l3 (fuel : Nat) (r : Rd) (buf : Bytes) (p : Nat) (ct fresh : Option
   cases fb with
   | none => exact ⟨r, tlvLoop_end' R _ _ _ r buf p h (by simpa using hb) (by omega)⟩
   | some v =>
-    simp only [optB_some, encBinField_eq] at hb
+    simp only [optB_some, encBinField_eq_dt] at hb
     obtain ⟨r3, p3, a3, d3, f3, e3⟩ := tlvLoop_field R metaBody fuel ⟨ct, fresh, none⟩ ⟨ct, fresh, some v⟩
       r buf p 26 v [] h hb (by omega) hlen hf (by
         intro r2 p2 a2 _ d2 hle
@@ -144,7 +144,7 @@ theorem meta_l2 (fuel : Nat) (r : Rd) (buf : Bytes) (p : Nat) (ct fresh : Option
   cases fresh with
   | none => exact meta_l3 R fuel r buf p ct none fb h (by simpa using hb) hlen hf
   | some x =>
-    simp only [optB_some, encNatField_eq, List.append_assoc, List.nil_append] at hb
+    simp only [optB_some, encNatField_eq_dt, List.append_assoc, List.nil_append] at hb
     obtain ⟨r3, p3, a3, d3, f3, e3⟩ := tlvLoop_field R metaBody fuel ⟨ct, none, none⟩ ⟨ct, some x, none⟩
       r buf p 25 (be (natLen x) x) _ h hb (by omega) hlen hf (by
         intro r2 p2 a2 _ d2 _
@@ -162,7 +162,7 @@ theorem meta_l1 (fuel : Nat) (r : Rd) (buf : Bytes) (p : Nat) (m : MetaInfo)
   cases ct with
   | none => exact meta_l2 R fuel r buf p none fresh fb h (by simpa using hb) hv.2 hlen hf
   | some x =>
-    simp only [optB_some, encNatField_eq, List.append_assoc, List.nil_append] at hb
+    simp only [optB_some, encNatField_eq_dt, List.append_assoc, List.nil_append] at hb
     obtain ⟨r3, p3, a3, d3, f3, e3⟩ := tlvLoop_field R metaBody fuel {} ⟨some x, none, none⟩
       r buf p 24 (be (natLen x) x) _ h hb (by omega) hlen hf (by
         intro r2 p2 a2 _ d2 _
@@ -193,7 +193,7 @@ theorem val_l2 (fuel : Nat) (r : Rd) (buf : Bytes) (p : Nat) (a : Option Bytes) 
     (h : At r buf p) (hb : buf.drop p = encBinField 255 b) (hlen : buf.length < 2 ^ 62)
     (hf : buf.length - p < fuel) :
     ∃ r', tlvLoop validityBody fuel (a, none) r = .ok ((a, some b), r') := by
-  simp only [encBinField_eq] at hb
+  simp only [encBinField_eq_dt] at hb
   obtain ⟨r3, p3, a3, d3, f3, e3⟩ := tlvLoop_field R validityBody fuel (a, none) (a, some b)
     r buf p 255 b [] h hb (by omega) hlen hf (by
       intro r2 p2 a2 _ d2 hle
@@ -206,7 +206,7 @@ theorem val_l1 (fuel : Nat) (r : Rd) (buf : Bytes) (p : Nat) (v : Bytes × Bytes
     (hf : buf.length - p < fuel) :
     ∃ r', tlvLoop validityBody fuel (none, none) r = .ok ((some v.1, some v.2), r') := by
   simp only [encValidity] at hb
-  rw [encBinField_eq 254] at hb
+  rw [encBinField_eq_dt 254] at hb
   simp only [List.append_assoc, List.nil_append] at hb
   obtain ⟨r3, p3, a3, d3, f3, e3⟩ := tlvLoop_field R validityBody fuel (none, none) (some v.1, none)
     r buf p 254 v.1 _ h hb (by omega) hlen hf (by
@@ -225,7 +225,7 @@ theorem parseValidity_at (R : ReaderSpecs) (r : Rd) (v : Bytes × Bytes) :
     (by rw [validityLen_eq]; exact hl) (loopFuel_at R r _ h)
   simp [parseValidity, e]
 
-theorem encNameField_eq (E : EncSpecs) (t : Nat) (n : Name) :
+theorem encNameField_eq_dt (E : EncSpecs) (t : Nat) (n : Name) :
     encNameField t n = encTL t ++ (encTL (encNameInner n).length ++ (encNameInner n ++ [])) := by
   simp [encNameField, E.nameLen_eq]
 
@@ -242,7 +242,7 @@ theorem kl_l2 (fuel : Nat) (r : Rd) (buf : Bytes) (p : Nat) (nm : Option Name) (
   cases dg with
   | none => exact ⟨r, tlvLoop_end' R _ _ _ r buf p h (by simpa using hb) (by omega)⟩
   | some v =>
-    simp only [optB_some, encBinField_eq] at hb
+    simp only [optB_some, encBinField_eq_dt] at hb
     obtain ⟨r3, p3, a3, d3, f3, e3⟩ := tlvLoop_field R keyLocBody fuel ⟨nm, none⟩ ⟨nm, some v⟩
       r buf p 29 v [] h hb (by omega) hlen hf (by
         intro r2 p2 a2 _ d2 hle
@@ -261,7 +261,7 @@ theorem kl_l1 (fuel : Nat) (r : Rd) (buf : Bytes) (p : Nat) (k : KeyLoc)
   cases nm with
   | none => exact kl_l2 R fuel r buf p none dg h (by simpa using hb) hlen hf
   | some n =>
-    simp only [optB_some, encNameField_eq E, List.append_assoc, List.nil_append] at hb
+    simp only [optB_some, encNameField_eq_dt E, List.append_assoc, List.nil_append] at hb
     obtain ⟨r3, p3, a3, d3, f3, e3⟩ := tlvLoop_field R keyLocBody fuel ⟨none, none⟩ ⟨some n, none⟩
       r buf p 7 (encNameInner n) _ h hb (by omega) hlen hf (by
         intro r2 p2 a2 _ d2 hle
@@ -320,7 +320,7 @@ theorem si_l5 (fuel : Nat) (r : Rd) (buf : Bytes) (p : Nat) (ty : Option Nat) (k
   cases sq with
   | none => exact si_l6 R fuel r buf p ty kl no ti none val h (by simpa using hb) hlen hf
   | some x =>
-    simp only [optB_some, encNatField_eq, List.append_assoc, List.nil_append] at hb
+    simp only [optB_some, encNatField_eq_dt, List.append_assoc, List.nil_append] at hb
     obtain ⟨r3, p3, a3, d3, f3, e3⟩ := tlvLoop_field R sigInfoBody fuel ⟨ty, ⟨0, kl, no, ti, none, none, false⟩⟩ ⟨ty, ⟨0, kl, no, ti, some x, none, false⟩⟩
       r buf p 42 (be (natLen x) x) _ h hb (by omega) hlen hf (by
         intro r2 p2 a2 _ d2 _
@@ -341,7 +341,7 @@ theorem si_l4 (fuel : Nat) (r : Rd) (buf : Bytes) (p : Nat) (ty : Option Nat) (k
   cases ti with
   | none => exact si_l5 R fuel r buf p ty kl no none sq val h (by simpa using hb) hv hlen hf
   | some x =>
-    simp only [optB_some, encNatField_eq, List.append_assoc, List.nil_append] at hb
+    simp only [optB_some, encNatField_eq_dt, List.append_assoc, List.nil_append] at hb
     obtain ⟨r3, p3, a3, d3, f3, e3⟩ := tlvLoop_field R sigInfoBody fuel ⟨ty, ⟨0, kl, no, none, none, none, false⟩⟩ ⟨ty, ⟨0, kl, no, some x, none, none, false⟩⟩
       r buf p 40 (be (natLen x) x) _ h hb (by omega) hlen hf (by
         intro r2 p2 a2 _ d2 _
@@ -362,7 +362,7 @@ theorem si_l3 (fuel : Nat) (r : Rd) (buf : Bytes) (p : Nat) (ty : Option Nat) (k
   cases no with
   | none => exact si_l4 R fuel r buf p ty kl none ti sq val h (by simpa using hb) hvt hv hlen hf
   | some v =>
-    simp only [optB_some, encBinField_eq, List.append_assoc, List.nil_append] at hb
+    simp only [optB_some, encBinField_eq_dt, List.append_assoc, List.nil_append] at hb
     obtain ⟨r3, p3, a3, d3, f3, e3⟩ := tlvLoop_field R sigInfoBody fuel ⟨ty, ⟨0, kl, none, none, none, none, false⟩⟩ ⟨ty, ⟨0, kl, some v, none, none, none, false⟩⟩
       r buf p 38 v _ h hb (by omega) hlen hf (by
         intro r2 p2 a2 _ d2 hle
@@ -407,7 +407,7 @@ theorem si_l1 (fuel : Nat) (r : Rd) (buf : Bytes) (p : Nat) (t : Nat) (kl : Opti
     (hlen : buf.length < 2 ^ 62) (hf : buf.length - p < fuel) :
     ∃ r', tlvLoop sigInfoBody fuel {} r
       = .ok (⟨some t, ⟨0, kl, no, ti, sq, val, false⟩⟩, r') := by
-  simp only [encSigInfo, encNatField_eq, List.append_assoc, List.nil_append] at hb
+  simp only [encSigInfo, encNatField_eq_dt, List.append_assoc, List.nil_append] at hb
   obtain ⟨r3, p3, a3, d3, f3, e3⟩ := tlvLoop_field R sigInfoBody fuel {} ⟨some t, ⟨0, none, none, none, none, none, false⟩⟩
     r buf p 27 (be (natLen t) t) _ h hb (by omega) hlen hf (by
       intro r2 p2 a2 _ d2 _
@@ -554,7 +554,7 @@ theorem d_l3 (fuel : Nat) (r : Rd) (buf : Bytes) (p q : Nat) (nm : Option Name) 
   cases content with
   | none => exact d_l4 R E fuel r buf p q nm mi none si cov0 est sv h (by simpa using hb) hv (by omega) hlen hf
   | some c =>
-    simp only [optB_some, contentLen_eq, List.append_assoc] at hb
+    simp only [optB_some, contentLen_eq_dt, List.append_assoc] at hb
     obtain ⟨r3, p3, a3, d3, f3, e3⟩ := tlvLoop_field R dataBody fuel (⟨⟨nm, mi, none, none, none⟩, cov0, 0⟩, q)
       (⟨⟨nm, mi, some c.flatten, none, none⟩, cov0, 0⟩, 5)
       r buf p 21 c.flatten _ h hb (by omega) hlen hf (by
@@ -643,7 +643,7 @@ theorem dataValue_length_le (E : EncSpecs) (d : DataIn) (sv : Bytes) (hs : d.est
       = optN d.content (fun c => 1 + tlLen (contentLen c) + contentLen c) := by
     cases d.content with
     | none => rfl
-    | some c => simp [optN, encTL_length, h21, ← contentLen_eq, -List.length_flatten]; omega
+    | some c => simp [optN, encTL_length, h21, ← contentLen_eq_dt, -List.length_flatten]; omega
   have hsi : (optB d.si (fun s => encTL 22 ++ encTL (sigInfoLen s) ++ encSigInfo s)).length
       = optN d.si (fun s => 1 + tlLen (sigInfoLen s) + sigInfoLen s) := by
     cases d.si with
@@ -652,7 +652,7 @@ theorem dataValue_length_le (E : EncSpecs) (d : DataIn) (sv : Bytes) (hs : d.est
   have hsg : (if d.est > 0 then encTL 23 ++ encTL sv.length ++ sv else []).length ≤ sigTLLen 23 d.est := by
     unfold sigTLLen
     by_cases he : d.est > 0
-    · have := tlLen_mono (hs he)
+    · have := tlLen_mono_dt (hs he)
       have := hs he
       simp [he, encTL_length, h23]; omega
     · simp [he]
@@ -673,7 +673,7 @@ theorem readData_roundtrip (R : ReaderSpecs) (E : EncSpecs) (d : DataIn) (sign :
       = encTL 6 ++ (encTL (dataValue d e.sigVal).length ++ (dataValue d e.sigVal ++ [])) := by simp
   have hlen : (encTL 6 ++ encTL (dataValue d e.sigVal).length ++ dataValue d e.sigVal).length < 2 ^ 62 := by
     have : tlLen 6 = 1 := by decide
-    have := tlLen_le (dataValue d e.sigVal).length
+    have := tlLen_le_dt (dataValue d e.sigVal).length
     simp only [List.length_append, encTL_length]; omega
   obtain ⟨r3, p3, a3, d3, f3, e3⟩ := tlvLoop_field R packetBody (loopFuel r) {}
     { data := some ⟨dataExpect d e.sigVal, if d.est > 0 then dataCovered d else [], 0⟩,
